@@ -497,6 +497,7 @@ def run_restart_scenario(seed, n_events=12, kill=True):
             return act
         last_id = before[-1]["id"] if before else 0
         live = probe(cl, last_id)
+        pre_kill_ids = {f["id"] for f in cl.frames()}
         path = cl.path
         if kill:
             cl.kill()
@@ -528,17 +529,17 @@ def run_restart_scenario(seed, n_events=12, kill=True):
                 rep["violations"].append(dict(
                     what=f"commands answering after the restart {[hex(i)[-6:] for i in ids(after['commands'])]} differ from "
                          f"before {[hex(i)[-6:] for i in ids(live['commands'])]}; events: {' '.join(rep['events'])}", kind="commands"))
-            # nothing re-executed: no handler output / command result refers to a pre-restart trigger after the restart
-            pre_ids = {f["id"] for f in before}
+            # nothing re-executed: every frame that appeared after the process went down and that is stamped with the id of
+            # a frame stored before it went down is a re-execution of a historical trigger / call
             for f in cl2.frames():
-                if f["id"] in pre_ids or not f["meta"] or f["id"] <= (mid[-1]["id"] if mid else 0):
+                if f["id"] in pre_kill_ids or not f["meta"]:
                     continue
                 fid = f["meta"].get("frame_id")
-                if fid and f["topic"].endswith((".out", ".recv", ".complete")):
+                if fid and f["topic"].endswith((".out", ".recv", ".complete", ".error")):
                     try:
-                        if H.s_to_id(fid) in pre_ids and H.s_to_id(fid) <= last_id:
+                        if H.s_to_id(fid) in pre_kill_ids:
                             rep["violations"].append(dict(what=f"a historical trigger/call {fid} was re-executed after the restart "
-                                                               f"(new frame {f['topic']})", kind="replay"))
+                                                               f"(new frame {f['topic']}); events: {' '.join(rep['events'])}", kind="replay"))
                     except Exception:
                         pass
         finally:
@@ -715,9 +716,52 @@ def run_command_scenario(seed, n_events=12):
                          f"{[o['topic'] for o in obs]}, the model says {len(exp)} {[e['topic'] for e in exp]}; first difference at #{kx}: "
                          f"impl {str(obs[kx])[:250] if kx < len(obs) else 'nothing'} vs model {str(exp[kx])[:250] if kx < len(exp) else 'nothing'}",
                     script=render_command(p)))
+        # restart on the same store (process kill): stored calls are not executed again (cboot ignores calls), and the
+        # definitions in force answer new calls exactly as the serve loop over the whole history says
+        pre = {f["id"] for f in fr}
+        path = cl.path
+        cl.kill()
+        cl2 = Client("api,commands", path=path)
+        cl = None
+        try:
+            time.sleep(0.3)
+            cl2.settle(0.4, 10)
+            new_calls = []
+            for n in ("c", "d"):
+                c = r.choice(ctxs)
+                i = cl2.append(n + ".call", ctx=c)
+                if i:
+                    new_calls.append((i, "call", n, c, None))
+            cl2.settle(0.5, 20)
+            fr2 = cl2.frames()
+            for f in fr2:
+                m = f["meta"]
+                if f["id"] in pre or not m or not m.get("frame_id"):
+                    continue
+                try:
+                    if H.s_to_id(m["frame_id"]) in pre:
+                        rep["violations"].append(dict(
+                            what=f"after a restart the stored call {m['frame_id']} was executed again (new frame {f['topic']}); "
+                                 f"events: {' '.join(rep['events'])}"))
+                        break
+                except Exception:
+                    pass
+            lines2 = list(lines) + [f"EV call {H.hex32(i)} {H.hex32(c)} {xh(n)}" for (i, _, n, c, _) in new_calls]
+            acts2 = model_service(lines2)[len(lines):]
+            for (i, _, n, c, _), act in zip(new_calls, acts2):
+                got = {m["command_id"] for f in fr2 for m in [f["meta"]] if m and m.get("frame_id") == H.id_to_s(i) and m.get("command_id")}
+                want = set() if act[0] == "none" else {H.id_to_s(int(act[1], 16))}
+                rep["calls"] += 1
+                if got != want:
+                    rep["violations"].append(dict(
+                        what=f"after a restart a call of `{n}` was answered by definitions {sorted(got)}, the history says {sorted(want)}; "
+                             f"events: {' '.join(rep['events'])}"))
+        finally:
+            cl2.close()
         return rep
     finally:
-        cl.close()
+        if cl is not None:
+            cl.close()
 
 
 def strip_cmd(m):
@@ -936,6 +980,27 @@ def run_cas_scenario(seed):
                 if f["hash"] != integ(want) or got != want:
                     rep["violations"].append(dict(what=f"{f['topic']}: content {want!r} stored under {f['hash']} (expected {integ(want)}), read back {got!r}"))
                 seen[f["hash"]] = want
+        # nu `.append` fed by a multi-chunk ByteStream (what an external command's pipe, `http get` or a duplex generator's
+        # input hand over): the stored content is the concatenation of all chunks
+        pat = lambda k, n: bytes((((i * 31 + k * 7 + 1) & 0xff) | (0x80 if i % 7 == 0 else 0)) for i in range(n))
+        for sizes in ([3000, 5000, 1, 4000], [10, 30000], [20000], [8192, 1], [1, 1, 1], [r.randrange(1, 9000) for _ in range(r.choice([2, 3, 5]))]):
+            want = b"".join(pat(k, n) for k, n in enumerate(sizes))
+            out = cl.cmd("nueval " + xh(".append chunked") + " " + ",".join(map(str, sizes)))
+            rep["writes"] += 1; rep["sizes"].append(len(want))
+            try:
+                fj = json.loads(out[len("NU ok "):]) if out.startswith("NU ok ") else None
+            except Exception:
+                fj = None
+            if not fj or not fj.get("hash"):
+                rep["violations"].append(dict(what=f"nu .append of a ByteStream in chunks {sizes} failed: {out[:200]}"))
+                continue
+            got = cl.cas(fj["hash"]); rep["reads"] += 1
+            if fj["hash"] != integ(want) or got != want:
+                rep["violations"].append(dict(
+                    what=f"nu .append of a ByteStream in chunks {sizes} ({len(want)} bytes) stored {None if got is None else len(got)} bytes "
+                         f"under {fj['hash']}; the bytes hash to {integ(want)}"))
+            seen[fj["hash"]] = want
+        pump()
         s.close()
         # across a restart: same hash, same bytes
         path = cl.path
